@@ -192,8 +192,9 @@ def get_operation_count(layer, input_shape):
 
     kernel_h, kernel_w, _, _ = weight_1.shape
 
+    # channels_o = channels_i * depth_multiplier
     operation_count = (
-        kernel_h * kernel_w * height_o * width_o * channels_i)
+        kernel_h * kernel_w * height_o * width_o * channels_o)
 
   elif layer.__class__.__name__ in ["QDense", "Dense"]:
     output_shape = layer.compute_output_shape(input_shape)
